@@ -23,14 +23,32 @@ EXPLANATION = (
     "attached to the returned service with a constant period and the sweep call "
     "sits in a try/except Exception that does not re-raise; no may-raise site in "
     "the sweep. Not decided: wall-clock behaviour of the LoopingCall.")
+EXPLANATION += ' Also decided: no parent INSERT is silently skipped (conflict clause on a key wider than one app), and no registry deletion in the sweep can raise KeyError.'
 
 FIVE = ("nameplate_sides", "nameplates", "messages", "mailbox_sides", "mailboxes")
 
 
 def run(ctx):
     model = ctx.model
+    ctx.rule("R13.timer", "TimerService(constant period, f) is parented to the returned "
+             "service; f wraps the sweep in try/except Exception without re-raise")
+    if not model.timer_info():
+        # makeService reached its end (paths exist) without scheduling the sweep
+        npaths = len(model.paths("tap:makeService"))
+        ctx.ob("R13.timer", "the sweep is scheduled by makeService", False, "",
+               "no TimerService(...) call is reachable in makeService (%d paths): expired "
+               "channels are never swept" % npaths)
+        return
     from .. import roles as _roles
-    R = _roles.get(model)
+    try:
+        R = _roles.get(model)
+    except AnalysisError as exc:
+        if "does not reach a per-app sweep" in str(exc) and model.paths("timer"):
+            # the timer callable was analysed (its paths exist) and calls no sweep
+            ctx.ob("R13.timer", "the timer callable runs the sweep", False, "",
+                   "%s: expired channels are never swept" % exc)
+            return
+        raise
     interp = model.interp
     ctx.rule("R13.exh", "every mailbox row is classified into exactly one set")
     ctx.rule("R13.cover", "an old mailbox is deleted from all five tables in one "
@@ -101,21 +119,28 @@ def run(ctx):
                 continue
             napps += 1
             it = strip_wrappers(e["iter"])
-            okdb = it[0] == "coll"
+            # a set filled by loops over selects, or one comprehension over a select
+            elems = None
+            if it[0] == "coll":
+                elems = [a["elem"] for a in interp.coll_adds.get(it[1], [])]
+            elif it[0] == "comp" and not it[4]:
+                elems = [("sub", ("elem", it[3]), it[2][2])] if (
+                    it[2][0] == "sub" and it[2][1][0] == "elem") else None
+            okdb = elems is not None
             ctx.ob("R13.apps", "sweep iterates the database-derived app set", okdb, e,
                    "" if okdb else "the sweep iterates %s: apps that have rows but no "
                    "in-memory object are never swept" % show(e["iter"])[:60])
             if okdb:
-                adds = interp.coll_adds.get(it[1], [])
                 srcs = set()
-                for a in adds:
-                    el = a["elem"]
+                for el in elems:
                     if el[0] == "sub" and el[2] == ("const", "app_id") and el[1][0] == "elem":
                         r = strip_wrappers(el[1][1])
                         if r[0] == "rows":
                             st = interp.sql_sites.get(r[1])
-                            if st is not None and st.kind == "select" and st.where is None:
-                                srcs.add(st.table)
+                            for m in ([st] + list(st.extra.get("union", []))
+                                      if st is not None and st.kind == "select" else []):
+                                if m.where is None and not m.extra.get("joins"):
+                                    srcs.add(m.table)
                 missing = [t for t in app_tables if t not in srcs]
                 ctx.ob("R13.apps", "app set unions %s" % ",".join(app_tables), not missing, e,
                        "" if not missing else "apps that only have rows in %s are never "
@@ -131,7 +156,7 @@ def run(ctx):
     e4 = e4mod.get(model)
     nr = 0
     for f in e4.findings:
-        if f.kind == "rule_u" and "AppNamespace._mailboxes" in f.construct:
+        if f.kind == "rule_u" and model.names.reg_name("mailboxes") in f.construct:
             nr += 1
             ctx.ob("R13.reach", f.construct, f.ok, f.site, f.detail +
                    ("" if f.ok else " -- a message added through the stale handle has no "
@@ -146,6 +171,23 @@ def run(ctx):
                     ok = e["func"].startswith("Mailbox.")
                     ctx.ob("R13.reach", construct_of(e), ok, e,
                            "" if ok else "messages are inserted outside the Mailbox handle")
+    # R13.orphan: the sweep finds a channel's rows through its app's mailboxes /
+    # nameplates row; an INSERT that is silently skipped (conflict clause on a
+    # key wider than one app) lets the caller go on writing child rows that no
+    # row of this app leads to
+    ctx.rule("R13.orphan", "no parent INSERT is silently skipped (OR IGNORE / OR REPLACE "
+             "on a key wider than one app): child rows written afterwards would belong to "
+             "no mailbox of this app and never be swept")
+    e3o = e3mod.get(model)
+    norph = 0
+    for f in e3o.by_kind("unique"):
+        norph += 1
+        if "!conflict-clause" in f.construct:
+            ctx.ob("R13.orphan", f.construct, f.ok, f.site, f.detail +
+                   ("" if f.ok else " -- messages / side records written after the skipped "
+                    "INSERT have no mailbox row of their app: no sweep ever deletes them"))
+    ctx.ob("R13.orphan", "guarded INSERTs examined", True, "", "%d" % norph)
+    ctx.require("R13.orphan", norph, 4, "guarded INSERTs")
     # R13.pin: a listener that outlives its connection's close / disconnect
     # makes every sweep re-stamp the mailbox, which then never expires
     ctx.rule("R13.pin", "listeners are removed on close and on disconnect (same rule "
@@ -187,18 +229,13 @@ def run(ctx):
                    "never given a parent" if parented is None else
                    "parented to %s, not to the returned service" % show(parented)[:40]))
     # try/except around the sweep call in the timer callable
-    fi = None
-    clos = [a for a in info[0][1]["args"] if a[0] == "closure"]
-    if clos:
-        fi = interp.closures[clos[0][1]][0]
-    if fi is None:
-        raise AnalysisError("R13.timer: timer callable is not a local function")
+    fi = model.timer_fi()
     found = False
     for node in ast.walk(fi.node):
         if isinstance(node, ast.Try):
             calls = [n for b in node.body for n in ast.walk(b)
                      if isinstance(n, ast.Call) and isinstance(n.func, ast.Attribute)
-                     and n.func.attr == "prune_all_apps"]
+                     and n.func.attr == R.sweep_all.split(".")[-1]]
             if not calls:
                 continue
             found = True
